@@ -1,0 +1,111 @@
+//go:build verif
+
+package NoKV
+
+import (
+	"fmt"
+
+	"github.com/feichai0017/NoKV/kv"
+	"github.com/feichai0017/NoKV/lsm"
+	"github.com/feichai0017/NoKV/manifest"
+)
+
+// Simulation accessors (build tag verif only); never compiled into shipped binaries.
+
+// VerifLSM exposes the LSM for maintenance scheduling by the simulator.
+func (db *DB) VerifLSM() *lsm.LSM { return db.lsm }
+
+// VerifRotate seals the active memtable.
+func (db *DB) VerifRotate() { db.lsm.Rotate() }
+
+// VerifLocate lists stored copies of (cf,key) across memtables and tables.
+// Out-of-line values are resolved through the value log (nil when unreadable).
+func (db *DB) VerifLocate(cf kv.ColumnFamily, key []byte) []lsm.VerifCopy {
+	copies := db.lsm.VerifLocate(kv.InternalKey(cf, key, 0))
+	for i := range copies {
+		if copies[i].Meta&kv.BitValuePointer == 0 {
+			continue
+		}
+		var vp kv.ValuePtr
+		vp.Decode(copies[i].Value)
+		val, cb, err := db.vlog.read(&vp)
+		if err != nil {
+			copies[i].Value = nil
+		} else {
+			copies[i].Value = kv.SafeCopy(nil, val)
+		}
+		kv.RunCallback(cb)
+	}
+	return copies
+}
+
+// VerifVlogFiles lists value-log files per bucket with the active fid.
+func (db *DB) VerifVlogFiles() (files []manifest.ValueLogID, active []uint32) {
+	for b, mgr := range db.vlog.managers {
+		if mgr == nil {
+			active = append(active, 0)
+			continue
+		}
+		active = append(active, mgr.ActiveFID())
+		for _, fid := range mgr.ListFIDs() {
+			files = append(files, manifest.ValueLogID{Bucket: uint32(b), FileID: fid})
+		}
+	}
+	return files, active
+}
+
+// VerifGCFile runs value-log GC on one file under the same eligibility rules
+// as pickLogs; force skips the discard-ratio heuristic and rewrites directly.
+func (db *DB) VerifGCFile(bucket, fid uint32, ratio float64, force bool) error {
+	vlog := db.vlog
+	if int(bucket) >= len(vlog.managers) || vlog.managers[bucket] == nil {
+		return fmt.Errorf("verif: no bucket %d", bucket)
+	}
+	mgr := vlog.managers[bucket]
+	// Same head resolution as RunValueLogGC.
+	heads := db.lsm.ValueLogHead()
+	if len(heads) == 0 {
+		db.RLock()
+		if len(db.vheads) > 0 {
+			heads = make(map[uint32]kv.ValuePtr, len(db.vheads))
+			for k, v := range db.vheads {
+				heads[k] = v
+			}
+		}
+		db.RUnlock()
+	}
+	if len(heads) == 0 {
+		heads = map[uint32]kv.ValuePtr{bucket: mgr.Head()}
+	}
+	head := heads[bucket]
+	if fid >= mgr.ActiveFID() || (head.Fid != 0 && fid >= head.Fid) {
+		return fmt.Errorf("verif: file not eligible")
+	}
+	if len(vlog.filterPendingDeletes([]manifest.ValueLogID{{Bucket: bucket, FileID: fid}})) == 0 {
+		return fmt.Errorf("verif: file pending delete")
+	}
+	found := false
+	for _, f := range mgr.ListFIDs() {
+		if f == fid {
+			found = true
+		}
+	}
+	if !found {
+		return fmt.Errorf("verif: file missing")
+	}
+	if !vlog.tryStartBucketGC(bucket) {
+		return fmt.Errorf("verif: bucket busy")
+	}
+	defer vlog.finishBucketGC(bucket)
+	if force {
+		return vlog.rewrite(bucket, fid)
+	}
+	return vlog.doRunGC(bucket, fid, ratio)
+}
+
+// VerifWatchdogOnce runs one WAL watchdog pass.
+func (db *DB) VerifWatchdogOnce() {
+	if db.walWatchdog != nil {
+		db.walWatchdog.RunOnce()
+	}
+}
